@@ -160,3 +160,48 @@ Proof.
 Qed.
 
 End HrrFourier.
+
+(* ---- binding powers and unitarity in the Fourier domain ----------------------------------- *)
+From NSpa Require Import Theory.ElemLaws Theory.PowerLaws.
+Section HrrPowers.
+Variable R : comRingType.
+Variable C : comRingType.
+Variable iota : {rmorphism R -> C}.
+Variable p : nat.
+Local Notation d := p.+1.
+Variable w : C.
+Hypothesis w_d : w ^+ d = 1.
+Implicit Types a b : seq R.
+
+(* the identity has the constant spectrum 1 *)
+Theorem spectrum_identity (k : 'I_d) : spectrum iota w (hrr_identity R d) k = 1.
+Proof.
+  rewrite /spectrum /dft /hrr_identity (bigD1 ord0) //=.
+  have -> : chi w k ord0 = 1 by rewrite /chi muln0.
+  rewrite mulr1 rmorph1 big1 ?addr0 // => i ne.
+  rewrite nth_vbasis //.
+  have -> : (nat_of_ord i == 0%N) = false by apply/negbTE.
+  by rewrite rmorph0 mul0r.
+Qed.
+
+(* binding_power with a natural exponent raises every spectral coefficient to that power:
+   what irfft(rfft(v) ** n) computes is the n-fold binding *)
+Theorem spectrum_pow a n (k : 'I_d) :
+  size a = d -> spectrum iota w (hrr_pow_nat a n) k = spectrum iota w a k ^+ n.
+Proof.
+  move=> sa; elim: n => [|n IH].
+    by rewrite hrr_pow0 sa spectrum_identity expr0.
+  by rewrite hrr_powS (spectrum_bind iota w_d) ?size_hrr_pow // IH exprSr.
+Qed.
+
+(* a vector is unitary (its inverse undoes binding) iff every spectral coefficient times
+   its mirror image is 1 - for real vectors: |F_k|^2 = 1 *)
+Theorem spectrum_unitary a (k : 'I_d) :
+  size a = d -> hrr_bind_core a (hrr_invert a) = hrr_identity R d ->
+  spectrum iota w a k * spectrum iota w a (- k) = 1.
+Proof.
+  move=> sa H.
+  by rewrite -(spectrum_invert iota w_d) // -(spectrum_bind iota w_d) // H spectrum_identity.
+Qed.
+
+End HrrPowers.
